@@ -82,7 +82,9 @@ struct Subject {
 		b.stepEnd(key());
 		for(;;) {
 			int o = b.chooseOp(menu());
+			fctl().fired = 0;
 			op(b, o);
+			if(fctl().fired > 0) b.tagOutcome("+fault");
 			if(!ctx.failed) verify("after the operation");
 			checkLedgerErrors(ctx, "quiescent");
 			b.stepEnd(key());
@@ -615,7 +617,7 @@ static void addUnit(const std::string & name, int minTier, int dq, int dt, int f
 	u.run = [=](Ctx & ctx, UnitReport & rep, int tier) {
 		installTerminateTrap();
 		S s(ctx);
-		BfsOptions o; o.maxDepth = tier ? dt : dq; o.innerBudget = tier ? faultsThorough : faultsQuick;
+		BfsOptions o; o.keyIncludesLastOp = true; o.maxDepth = tier ? dt : dq; o.innerBudget = tier ? faultsThorough : faultsQuick;
 		Bfs b(ctx, o);
 		b.run([&](Bfs & bb) { s.body(bb); }, [&]() { s.after(); });
 		fillBfsReport(rep, b.res);
